@@ -62,6 +62,11 @@ type task struct {
 	prio   int64
 	after  process.SimOpResult
 	goid   string // "goroutine N" of the task's goroutine (to find it in a stack dump)
+	// lateSteps counts the task's transitions begun after the run's context was cancelled. One
+	// internal step may legitimately complete after cancellation (the interpreter checks the
+	// context and then acts; the two are not atomic); a process that goes on after that ignores
+	// the cancellation.
+	lateSteps int
 }
 
 // Config is everything that decides one simulated run besides the program.
@@ -103,6 +108,7 @@ type Result struct {
 	Accepted     bool
 	Prints       []string // labels actually written to standard output, in order
 	RulePrints   []string // labels of the PRINT rule events seen by the hook
+	LeftoverPrints []string // labels printed by leftovers after the run was over (KeepLeftovers)
 	PrintTasks   []string
 	Quiescent    []Blocked // table at the first instant no transition is enabled (before any cancellation)
 	QuiescentAt  int
@@ -218,7 +224,11 @@ func (s *sched) park(p *process.Process, st tstate, f func(t *task)) {
 }
 
 func (s *sched) Step(p *process.Process, re *process.RuntimeEnvironment) {
-	s.park(p, stStep, nil)
+	s.park(p, stStep, func(t *task) {
+		if s.re != nil && s.re.Ctx().Err() != nil {
+			t.lateSteps++
+		}
+	})
 }
 
 func (s *sched) Before(p *process.Process, re *process.RuntimeEnvironment, kind process.SimOpKind, data chan process.Message, ctlOut, ctlIn chan process.ControlMessage) {
@@ -254,6 +264,10 @@ func (s *sched) Event(p *process.Process, re *process.RuntimeEnvironment, kind p
 		if rule == process.PRINT {
 			s.res.Prints = append(s.res.Prints, label)
 			s.res.PrintTasks = append(s.res.PrintTasks, id)
+			if t != nil && t.lateSteps >= 1 {
+				// printed by a process that has already begun a transition after the cancellation
+				s.res.LeftoverPrints = append(s.res.LeftoverPrints, label)
+			}
 		}
 	case process.SimTerminated:
 		s.logf("term %s", id)
@@ -671,7 +685,20 @@ func (s *sched) run() {
 // oracles see are the ones actually printed, not merely the PRINT rule events.
 var outFile *os.File
 
-func captureStdout() (restore func() []string) {
+// leftoverMark is the offset in the scratch file at which the scheduler handed the remaining
+// parked tasks back to the Go scheduler (end of the controlled part of a run, KeepLeftovers
+// only): labels written after it were printed by leftovers of a run that is over.
+var leftoverMark int64 = -1
+
+func markLeftovers() {
+	if outFile != nil && leftoverMark < 0 {
+		if off, err := outFile.Seek(0, 1); err == nil {
+			leftoverMark = off
+		}
+	}
+}
+
+func captureStdout() (restore func() ([]string, []string)) {
 	if outFile == nil {
 		f, err := os.CreateTemp("", "verif-stdout-*")
 		if err != nil {
@@ -684,19 +711,26 @@ func captureStdout() (restore func() []string) {
 	outFile.Seek(0, 0)
 	old := os.Stdout
 	os.Stdout = outFile
-	return func() []string {
+	leftoverMark = -1
+	return func() ([]string, []string) {
 		os.Stdout = old
 		outFile.Seek(0, 0)
-		var labels []string
+		var labels, late []string
 		sc := bufio.NewScanner(outFile)
 		sc.Buffer(make([]byte, 1<<16), 1<<24)
+		var pos int64
 		for sc.Scan() {
 			l := sc.Bytes()
 			if bytes.HasPrefix(l, []byte("> ")) {
-				labels = append(labels, string(l[2:]))
+				if leftoverMark >= 0 && pos >= leftoverMark {
+					late = append(late, string(l[2:]))
+				} else {
+					labels = append(labels, string(l[2:]))
+				}
 			}
+			pos += int64(len(l)) + 1
 		}
-		return labels
+		return labels, late
 	}
 }
 
@@ -747,7 +781,7 @@ func Run(t *testing.T, src string, cfg Config) *Result {
 			restore := captureStdout()
 			defer func() {
 				res.RulePrints = res.Prints
-				res.Prints = restore()
+				res.Prints, _ = restore()
 			}()
 			done := make(chan struct{})
 			go func() { defer close(done); s.run() }()
